@@ -602,11 +602,14 @@ class DSP:
     Refinement on `switchInt(discriminant(place))` edges. The place must not be assigned / mutably
     borrowed in the function (checked by caller when it matters)."""
 
-    def __init__(self, fn, place, all_variants, extra_refine=None):
+    def __init__(self, fn, place, all_variants, extra_refine=None, kill_defs=False):
         self.fn = fn
         self.place = place
         self.allv = frozenset(all_variants)
         self.extra_refine = extra_refine
+        # kill_defs: the place is an owned local that may be assigned again (a loop variable): a block that assigns to it (statement or
+        # call destination) forgets what was known
+        self.kill_defs = kill_defs
         self.entry = {}
         self.edge = {}
         self._run()
@@ -635,7 +638,14 @@ class DSP:
             cur = entry[b]
             t = fn.term(b)
             outs = []
-            if t['k'] == 'switch' and op_place(t['discr']) is not None and is_local(op_place(t['discr'])) and op_place(t['discr'])['l'] in dl and dl[op_place(t['discr'])['l']] == b:
+            if self.kill_defs:
+                if any(st['k'] == 'assign' and st['pl']['l'] == self.place['l'] for st in fn.blocks[b]['stmts']):
+                    cur = self.allv
+                if t['k'] == 'call' and t.get('dest') and t['dest']['l'] == self.place['l']:
+                    outs = [(s, self.allv) for s in fn.succ(b)]
+            if outs:
+                pass
+            elif t['k'] == 'switch' and op_place(t['discr']) is not None and is_local(op_place(t['discr'])) and op_place(t['discr'])['l'] in dl and dl[op_place(t['discr'])['l']] == b:
                 listed = set()
                 for v, tg in t['targets']:
                     listed.add(v)
